@@ -33,7 +33,13 @@
     an answer other than "out of fuel" obtained with some fuel is the answer for every larger
     fuel, for every environment (registries of any shape), schema and document — so
     "terminates" can be read as "some fuel suffices", and the ports may pick any fuel that does.
-  Termination for *every* finite document under arbitrary self-referential
+  * `C14_witness_items_on_string` (kernel-checked negation, by induction on the fuel) — the
+    termination clause of the property is *false*: the rules set `lst = {'items': ['lst']}`
+    applied to the one-character string `"x"` never answers, because a one-character string is
+    its own only item (known finding F37; the code raises RecursionError).  Found while
+    looking for a termination measure: the size of the document does not decrease through
+    `items` on a string.
+  Termination for every finite document *without such strings* under arbitrary self-referential
   registries is not proved (no measure argument yet); it is decided by the port and
   oracle on recursive definitions applied to documents of depth <= 6.
 -/
@@ -183,6 +189,65 @@ set_option maxRecDepth 100000 in
     it is not vacuous: with too little fuel the model does run out -/
 theorem C14_fuel_instance : C14_answers 9 3 = true ∧ C14_answers 2 3 = false := by
   decide +kernel
+
+/-! ### a self-referential definition that does not terminate (kernel-checked negation; known finding F37) -/
+
+/-- the rules set `lst` = `{'items': ['lst']}` -/
+def C14_itemsEnv : Env :=
+  { rx := fun _ _ => none, coerce := Family.coerce, hasCoercer := fun _ => false,
+    setter := fun _ _ => .other "", hasSetter := fun _ => false, checker := fun _ _ => none,
+    rulesSets := fun n => if n == "lst" then some (.dict [(.s "items", .seq false [.str "lst"])]) else none,
+    schemas := fun _ => none }
+
+def C14_lstDef : Val := .dict [(.s "items", .seq false [.str "lst"])]
+
+/-- one level of the descent: the field `k` (given by the reference `lst`) holds the one-character string `"x"`;
+    the `items` rule hands `{0: "x"}` with the schema `{0: 'lst'}` to a child validator -/
+macro "c14_items_level " k:term " with " ih:term : tactic => `(tactic|
+  (have hrs : C14_itemsEnv.resolveRulesSet (.str "lst") = some C14_lstDef := rfl
+   have hrs2 : C14_itemsEnv.resolveRulesSet C14_lstDef = some C14_lstDef := rfl
+   have hsc : C14_itemsEnv.resolveSchema (.dict [($k, .str "lst")]) = some (.dict [($k, .str "lst")]) := rfl
+   have hl : Val.dlookup [($k, C14_lstDef)] $k = some C14_lstDef := rfl
+   have hq : buildQueue Extracted.tables ["items"] = ["nullable", "items"] := by decide
+   have hlen1 : Val.pyLen? "_validate_items" (Val.seq false [Val.str "lst"]) = .ok 1 := rfl
+   have hlen2 : Val.pyLen? "_validate_items" (Val.str "x") = .ok 1 := rfl
+   have hit1 : Val.pyIter? "_validate_items" (Val.seq false [Val.str "lst"]) = .ok [Val.str "lst"] := rfl
+   have hit2 : Val.pyIter? "_validate_items" (Val.str "x") = .ok [Val.str "x"] := rfl
+   have he1 : Val.enumDict [Val.str "lst"] = [(Key.i 0, Val.str "lst")] := rfl
+   have he2 : Val.enumDict [Val.str "x"] = [(Key.i 0, Val.str "x")] := rfl
+   have hnames : ruleNames C14_lstDef = .ok ["items"] := rfl
+   have hget1 : C14_lstDef.dget? (kS "nullable") = none := rfl
+   have hget2 : C14_lstDef.dget? (kS "items") = some (Val.seq false [Val.str "lst"]) := rfl
+   have hn : C14_lstDef.isNone = false := rfl
+   have hx : (Val.str "x").isNone = false := rfl
+   simp only [validate0, validateMapping, resolvedFields, hsc, List.map, hrs, Option.getD, validateResolved,
+     validateFields, validateField]
+   simp [hl, hn, hx, validateDefinitions, hrs2, hnames, hq, runQueue, runRule, handler, hNullable, hget2,
+     pure, Except.pure, buildErrs, errsOnly, hItems, Val.isSized, Val.isIterable, hlen1, hlen2, hit1, hit2, he1, he2,
+     liftPy, bind, Except.bind, $ih:term]))
+
+set_option linter.unusedSimpArgs false in
+/-- below the field: whatever the fuel, the validation of `{0: "x"}` against `{0: 'lst'}` runs out of it -/
+theorem C14_items_descent : ∀ (n : Nat) (ctx : Ctx) (upd : Bool),
+    validate0 C14_itemsEnv Extracted.tables n ctx (.dict [(.i 0, .str "lst")]) (.dict [(.i 0, .str "x")]) upd = .error .fuel
+  | 0, _, _ => rfl
+  | n + 1, ctx, upd => by
+    have ih := C14_items_descent n
+    c14_items_level (Key.i 0) with ih
+
+set_option linter.unusedSimpArgs false in
+/-- **the statement "self-referential definitions terminate on every finite document" is false of the model (and
+    of the code: `Validator({'a': 'lst'}).validate({'a': 'x'})` with `lst = {'items': ['lst']}` raises
+    `RecursionError`)**: a one-character string is its own only item, so the `items` rule of the self-referential
+    rules set descends for ever; no amount of fuel gives an answer -/
+theorem C14_witness_items_on_string (n : Nat) (ctx : Ctx) (upd : Bool) :
+    validate0 C14_itemsEnv Extracted.tables n ctx (.dict [(.s "a", .str "lst")]) (.dict [(.s "a", .str "x")]) upd
+      = .error .fuel := by
+  cases n with
+  | zero => rfl
+  | succ n =>
+    have ih := C14_items_descent n
+    c14_items_level (Key.s "a") with ih
 
 /-! ### rules sets that refer to themselves from within a `schema` mapping (kernel-evaluated; finding F36) -/
 
